@@ -328,6 +328,9 @@ def main(argv):
                             "--tier", tier, "--out", wd], cwd=ROOT, timeout=cfg.get("gen_timeout", 1800))
         except subprocess.TimeoutExpired:
             rc, outg = 124, "harness generator timed out"
+        if rc == 42:
+            add_violation("hang", "the implementation stopped making progress (%s build): %s" % (profile, outg[-3000:]))
+            continue
         if rc != 0:
             add_violation("harness-run", "harness run failed (%s, rc=%s): %s" % (profile, rc, outg[-3000:]), found=False)
             continue
